@@ -4,6 +4,7 @@ package vspec
 
 import (
 	"bytes"
+	"crypto/subtle"
 	"encoding/binary"
 	"errors"
 	"fmt"
@@ -14,6 +15,7 @@ var _ = errors.New
 var _ = fmt.Errorf
 
 var _ = bytes.Equal
+var _ = subtle.ConstantTimeCompare
 var _ = binary.BigEndian
 
 //@ ext (encoding/binary.bigEndian).Uint16 func(e binary.ByteOrder, b []byte) (v uint16)
@@ -39,6 +41,39 @@ var _ = binary.BigEndian
 
 //@ ext bytes.Equal func(a []byte, b []byte) (eq bool)
 //@ ensures eq == (string(a) == string(b))
+//@ assigns none
+//@ pure
+//@ end
+
+// Read-only helpers a harmless edit is likely to introduce (without a contract, a callee that is handed a
+// reference is a frame obligation of its caller).
+
+//@ ext bytes.Clone func(b []byte) (res []byte)
+//@ ensures string(res) == string(b) && (res == nil) == (b == nil)
+//@ ensures b != nil ==> fresh(res)
+//@ assigns none
+//@ end
+
+//@ ext bytes.Compare func(a []byte, b []byte) (r int)
+//@ ensures -1 <= r && r <= 1 && (r == 0) == (string(a) == string(b))
+//@ assigns none
+//@ pure
+//@ end
+
+//@ ext bytes.HasPrefix func(s []byte, prefix []byte) (ok bool)
+//@ ensures ok == (len(s) >= len(prefix) && string(s[:min(len(prefix), len(s))]) == string(prefix))
+//@ assigns none
+//@ pure
+//@ end
+
+//@ ext bytes.HasSuffix func(s []byte, suffix []byte) (ok bool)
+//@ ensures ok == (len(s) >= len(suffix) && string(s[max(len(s)-len(suffix), 0):]) == string(suffix))
+//@ assigns none
+//@ pure
+//@ end
+
+//@ ext crypto/subtle.ConstantTimeCompare func(x []byte, y []byte) (r int)
+//@ ensures (r == 1) == (string(x) == string(y)) && (r == 0 || r == 1)
 //@ assigns none
 //@ pure
 //@ end
